@@ -186,6 +186,23 @@ PROPS["C12"] = dict(
     assumptions=["write sizes are non-negative (lengths of byte slices)", "pre-existing files within the limits for the size theorem"],
 )
 
+PROPS["C16"] = dict(
+    n_quick=480, n_thorough=20000, shards=16, coq_dirs=["C16"], no_shrink=True, confirm_runs=2, go_build_flags=["-race"],
+    rule="cases: (11/12) real-time histories on a limiter tree (period 40 ms): 3-28 operations among Use (amounts -3..cap+4, incl. 0, cap, "
+         "cap+1), New (child caps 1..30, also above the parent's), SetCap, Close (children, sometimes the root), tick (wait for the next "
+         "period), always ending with a tick and the root's Close; operations are issued 10 ms after a tick and the answers of a tick are "
+         "collected 5 ms after it; after every operation the answers that arrived and LastUsed/Closed/Cap(true) of every limiter are "
+         "compared with the sequential model; a disagreement counts only if it repeats on two re-runs of the same case; (1/12) hot "
+         "hand-shake: 5-20 rounds of Close (root, or child then root) under a ticker of 20 us-1 ms with waiting requests and two user "
+         "goroutines, each step under a 500 ms deadline, race detector on. non-trivial = history with a child limiter or a tick, or a hot "
+         "case; distinct = distinct case text",
+    trivial_class=r"(^flat$|^bad$|^exn$)",
+    trusted_base=["the controller's sync.RWMutex makes Use/New/SetCap/Close/tick bodies atomic: modelled as atomic events (hot cases sample it under the race detector)",
+                  "tick instants are those of time.Ticker started in rate.New; the harness aligns to them by wall clock (10 ms / 5 ms margins, re-run on disagreement)",
+                  "the hand-shake theorems are about a hand-written 72-state abstraction of Close and the ticker goroutine (mutex + unbuffered channel), tied to the code only by the hot cases"],
+    assumptions=["SetCap is excluded from the capacity theorem (lowering a cap below the amount already granted breaks it by design)"],
+)
+
 # properties not (yet) claimed, with the reason; an entry is dropped automatically once the property is in PROPS
 NOT_APPLICABLE = {
     "C%02d" % i: "not yet built in this development (model and correspondence harness pending); see DESIGN.md section 22"
@@ -193,6 +210,19 @@ NOT_APPLICABLE = {
 }
 
 MANIFEST_TEXT = {
+    "C16": dict(
+        level_text="Proof: in every reachable state of the limiter tree (any history of Use/New/Close/tick without SetCap) 0 <= used <= max(0, "
+                   "capacity) for every limiter; a grant adds its amount to the limiter and to each ancestor and to nothing else (so a child's "
+                   "consumption counts against every cap on its path); a tick answers or keeps every waiting request (none twice, none lost); "
+                   "closed limiters stay closed, Close marks its limiter, the root's Close fails every pending request; and for the Close / "
+                   "ticker hand-shake as now coded no schedule reaches a stuck state and completion always remains possible (72-state system "
+                   "enumerated by the kernel; the pre-repair order has a reachable deadlock, kept as a refutation lemma). Coq theorems. The "
+                   "sequential model is compared with the real limiter driven in real time; Close under a continuously firing ticker is "
+                   "sampled with deadlines.",
+        level_note="Partial: atomicity of the operations rests on the RWMutex (trusted, sampled under -race); wall-clock behaviour of time.Ticker "
+                   "cannot be exhibited by the model; LastUsed = period sum and per-period caps are checked by the driver's oracle on the "
+                   "implementation's answers, the invariant used <= capacity is the proved part of it.",
+        technique="Coq proof (state-machine invariant by induction over histories; finite-state enumeration lifted to all schedules) on a hand-written Gallina model + real-time differential correspondence check"),
     "C12": dict(
         level_text="Proof: for every history of writes (any sizes, also above MaxSize), closes, syncs and implicit re-opens, every configuration "
                    "and every pre-existing directory: each Write returns after at most one rotation having appended its bytes whole to the "
